@@ -31,7 +31,8 @@ ASSUMPTIONS = ["dashed top-level UIDs occur only on childless variants and never
 REQUIRED_REACH = ["composeinfo.VariantBase.add", "composeinfo.VariantBase._get_all_parents", "composeinfo.VariantBase.__getitem__",
                   "composeinfo.VariantBase.get_variants", "composeinfo.Variant._validate_uid", "composeinfo.Variant._validate_parent_arch"]
 REQUIRED_MONITORS = ["add-outcome", "forest-after-call", "invariant-walk", "lookup", "get-variants"]
-KINDS = ["valid", "valid", "valid", "dup-id", "foreign-arch", "foreign-arch-first-child", "misaligned-uid", "bad-id", "cycle", "readd"]
+KINDS = ["valid", "valid", "valid", "dup-id", "foreign-arch", "foreign-arch-first-child", "misaligned-uid", "bad-id", "cycle", "readd",
+         "cycle-respelled"]
 CLASS_FLOORS = dict(("op-" + k, 10) for k in set(KINDS))
 CLASS_FLOORS.update({"depth-3": 10, "dashed-top": 5, "after-reload": 10, "query-recursive": 50, "query-arch-nobody-has": 20,
                      "query-arch-src": 20, "query-types-subset": 50, "query-self": 10, "query-inner": 20,
@@ -188,6 +189,17 @@ def gen_history(rng):
                 target, h = rng.choice(pairs)
                 verdict, why = F.predict(target, h)
                 ops.append({"kind": kind, "target": target, "handle": h, "expect": verdict, "why": why})
+                continue
+        if kind == "cycle-respelled":
+            # an ancestor whose UID and arches were re-spelled by the caller so that they ALIGN with the descendant it is
+            # added to: only the ancestor rule itself can refuse it
+            pairs = [(d, a) for d in attached for a in F.ancestors_or_self(d)[1:] if F.depth(d) < 3 or True]
+            if not pairs:
+                kind = "valid"
+                cands = [None] + [h for h in attached if F.depth(h) < 3 and not F.specs[h].get("dashed")]
+            else:
+                target, h = rng.choice(pairs)
+                ops.append({"kind": kind, "target": target, "handle": h, "expect": "refuse", "why": "its own ancestor (re-spelled)"})
                 continue
         if kind == "readd":
             if not attached:
@@ -412,6 +424,12 @@ def check_history(ctx, pm, H, seed, exhaustive_queries=False):
         v = objs[h]
         container = ci.variants if target is None else objs[target]
         verdict, why = F.predict(target, h)
+        restore = None
+        if op["kind"] == "cycle-respelled":
+            restore = (v.uid, set(v.arches))
+            v.uid = "%s-%s" % (container.uid, v.id)
+            v.arches = set(sorted(container.arches)[:1])
+            verdict, why = "refuse", "its own ancestor (re-spelled)"
         before, _p = real_snapshot(ci)
         ctx.count("op-" + op["kind"])
         try:
@@ -446,6 +464,19 @@ def check_history(ctx, pm, H, seed, exhaustive_queries=False):
                 ref += 1
                 ctx.count("refused")
         after, dup = real_snapshot(ci)
+        if restore is not None:
+            if got == "accept":
+                # the forest is corrupt now (reported above); nothing sensible to continue with
+                return acc, ref, False
+            v.uid, v.arches = restore
+            after2, _d = real_snapshot(ci)
+            want = None
+            bad = after != before
+            ctx.monitor("forest-after-call", fired=bad)
+            if bad:
+                ctx.violation("forest-after-call", "a refused add leaves the forest unchanged; an accepted add attaches exactly that variant",
+                              case, observed=_snapdiff(before, after), expected="model forest (unchanged)")
+                return acc, ref, False
         if want is not None:
             bad = after != want
             ctx.monitor("forest-after-call", fired=bad)
